@@ -229,6 +229,9 @@ def iterate(I, v):
         m = I.repo.find_method(v.cls, "__iter__")
         if m is not None:
             return iterate(I, I.call_func(FuncVal(m, v, cls_ctx=m.cls), [], {}))
+    h = getattr(v, "__vf_iter__", None)
+    if h is not None:
+        return h(I)
     raise Unsupported(f"iteration over {type(v).__name__}")
 
 
@@ -285,8 +288,33 @@ def comprehension(I, elt, gens, kind):
         finally:
             I.frames.pop()
         return out
+    if len(gens) > 1 and not any(gg.ifs for gg in gens):
+        return _nested_range_comprehension(I, elt, gens, kind)
     if len(gens) != 1 or g.ifs:
         raise Unsupported("nested or filtered comprehension over a sequence of symbolic length")
+    if isinstance(it, MRSeq):
+        ds = [z3.Int(I.path.fresh_name("d_c")) for _ in it.sizes]
+        fr = I.frame
+        child = Frame(fr.func, {}, closure=fr, cls_ctx=fr.cls_ctx, self_obj=fr.self_obj, module=fr.module)
+        I.frames.append(child)
+        I.pure += 1
+        I.path.solver.push()
+        I.path.solver.add(z3.And(*[z3.And(d >= 0, d < to_z3(sz)) for d, sz in zip(ds, it.sizes)]))
+        try:
+            I.assign(g.target, it.body_fn(ds))
+            body = I.eval(elt)
+        finally:
+            I.path.solver.pop()
+            I.pure -= 1
+            I.frames.pop()
+
+        def subst_mr(v, xs):
+            if is_z3(v):
+                return z3.substitute(v, *[(d, to_z3(x)) for d, x in zip(ds, xs)])
+            if isinstance(v, tuple):
+                return tuple(subst_mr(x, xs) for x in v)
+            return v
+        return MRSeq(it.sizes, lambda xs, body=body: subst_mr(body, xs), "list" if kind == "list" else "gen")
     k = z3.Int(I.path.fresh_name("k_c"))
     guard = z3.And(k >= 0, k < to_z3(it.length))
     fr = I.frame
@@ -311,6 +339,69 @@ def comprehension(I, elt, gens, kind):
         return v
 
     return SymSeq(it.length, lambda i, body=body: subst(body, i), "list" if kind == "list" else "gen")
+
+
+class MRSeq(SymSeq):
+    """the list built by `[body for d0 in range(n0) for d1 in range(n1) ...]`: length n0*n1*..., and the element at the
+    mixed-radix position (d0, d1, ...) is body(d0, d1, ...).  A position given with its digits (engine/tensor.MR) is
+    looked up without div/mod; a plain linear position is decomposed arithmetically."""
+
+    def __init__(self, sizes, body_fn, kind="list"):
+        from .tensor import zprod
+        self.sizes = list(sizes)
+        self.body_fn = body_fn
+        n = zprod([to_z3(x) for x in self.sizes])
+        super().__init__(z3.simplify(n) if is_z3(n) else n, self._elem, kind)
+
+    def _elem(self, i):
+        from .tensor import MR
+        if isinstance(i, MR) and len(i.comps) == len(self.sizes) and \
+                all(z3.is_true(z3.simplify(to_z3(c[1]) == to_z3(sz))) for c, sz in zip(i.comps, self.sizes)):
+            return self.body_fn([c[0] for c in i.comps])
+        li = to_z3(i.linear()) if isinstance(i, MR) else to_z3(i)
+        ds = []
+        for j, sz in enumerate(self.sizes):
+            stride = 1
+            for t in self.sizes[j + 1:]:
+                stride = stride * to_z3(t)
+            q = li / stride if not (isinstance(stride, int) and stride == 1) else li
+            ds.append(q % to_z3(sz) if j > 0 else q)
+        return self.body_fn(ds)
+
+
+def _nested_range_comprehension(I, elt, gens, kind):
+    fr = I.frame
+    child = Frame(fr.func, {}, closure=fr, cls_ctx=fr.cls_ctx, self_obj=fr.self_obj, module=fr.module)
+    I.frames.append(child)
+    I.pure += 1
+    I.path.solver.push()
+    dvars, sizes = [], []
+    try:
+        for gg in gens:
+            it = I.eval(gg.iter)
+            if isinstance(it, IterVal):
+                it = it.seq
+            if not isinstance(it, SymSeq):
+                it = as_symseq(it)
+            d = z3.Int(I.path.fresh_name("d_c"))
+            I.path.solver.add(z3.And(d >= 0, d < to_z3(it.length)))
+            dvars.append(d)
+            sizes.append(it.length)
+            I.assign(gg.target, it.elem(d))
+        body = I.eval(elt)
+    finally:
+        I.path.solver.pop()
+        I.pure -= 1
+        I.frames.pop()
+
+    def subst(v, ds):
+        if is_z3(v):
+            return z3.substitute(v, *[(d, to_z3(x)) for d, x in zip(dvars, ds)])
+        if isinstance(v, tuple):
+            return tuple(subst(x, ds) for x in v)
+        return v
+
+    return MRSeq(sizes, lambda ds, body=body: subst(body, ds), "list" if kind == "list" else "gen")
 
 
 # ---------------------------------------------------------------------- operators
@@ -777,9 +868,43 @@ def _symset_method(I, s, name):
 
 
 def card(I, s: SymSet):
-    c = CARD(s.arr)
+    return _card_arr(I, s.arr, 0)
+
+
+def _card_arr(I, arr, depth):
+    """cardinality of a finite set of ints given as a z3 set term: an uninterpreted function constrained by the
+    axioms of finite cardinality instantiated on the *syntactic* structure of the term (store, union, difference,
+    intersection); all of them are theorems about finite sets (trusted base: finite-set cardinality axioms)."""
+    arr = z3.simplify(arr)
+    k = arr.decl().kind()
+    if k == z3.Z3_OP_CONST_ARRAY and z3.is_false(arr.arg(0)):
+        return z3.IntVal(0)
+    c = CARD(arr)
     I.path.assume(c >= 0)
-    I.path.assume((c == 0) == (s.arr == EMPTY))
+    I.path.assume((c == 0) == (arr == EMPTY))
+    if depth > 6:
+        return c
+    if k == z3.Z3_OP_STORE and z3.is_true(arr.arg(2)):
+        base, x = arr.arg(0), arr.arg(1)
+        cb = _card_arr(I, base, depth + 1)
+        I.path.assume(c == cb + z3.If(z3.Select(base, x), 0, 1))
+    elif k == z3.Z3_OP_SET_UNION and arr.num_args() == 2:
+        a, b = arr.arg(0), arr.arg(1)
+        ca, cb = _card_arr(I, a, depth + 1), _card_arr(I, b, depth + 1)
+        ci = _card_arr(I, z3.SetIntersect(a, b), depth + 1)
+        I.path.assume(c + ci == ca + cb)
+    elif k == z3.Z3_OP_SET_DIFFERENCE:
+        a, b = arr.arg(0), arr.arg(1)
+        ca = _card_arr(I, a, depth + 1)
+        ci = _card_arr(I, z3.SetIntersect(a, b), depth + 1)
+        I.path.assume(c == ca - ci)
+    elif k == z3.Z3_OP_SET_INTERSECT and arr.num_args() == 2:
+        a, b = arr.arg(0), arr.arg(1)
+        if depth < 3:
+            ca, cb = _card_arr(I, a, depth + 4), _card_arr(I, b, depth + 4)
+            I.path.assume(z3.And(c <= ca, c <= cb))
+            I.path.assume(z3.Implies(z3.IsSubset(a, b), c == ca))
+            I.path.assume(z3.Implies(z3.IsSubset(b, a), c == cb))
     return c
 
 
@@ -810,6 +935,8 @@ def make_builtins(I):
             return list(range(*a))
         if len(a) == 1:
             n = to_z3(a[0])
+            if I.path.must(n >= 0):
+                return SymSeq(n, lambda i: i, "range")
             return SymSeq(zmax(n, 0), lambda i: i, "range")
         if len(a) == 2:
             lo, hi = a
@@ -873,6 +1000,13 @@ def make_builtins(I):
     def _quant(x, is_all):
         if isinstance(x, IterVal):
             x = x.seq
+        if isinstance(x, MRSeq):
+            ds = [z3.Int(I.path.fresh_name("d_q")) for _ in x.sizes]
+            body = to_z3(I.truth(x.body_fn(ds)))
+            rng = z3.And(*[z3.And(d >= 0, d < to_z3(sz)) for d, sz in zip(ds, x.sizes)])
+            if is_all:
+                return z3.ForAll(ds, z3.Implies(rng, body))
+            return z3.Exists(ds, z3.And(rng, body))
         if isinstance(x, SymSeq) and not isinstance(x.length, int):
             k = z3.Int(I.path.fresh_name("k_q"))
             body = I.truth(x.elem(k))
@@ -908,6 +1042,8 @@ def make_builtins(I):
             return isinstance(v, bool) or is_sym_bool(v)
         if name == "float":
             return isinstance(v, float) or (isinstance(v, z3.ArithRef) and v.is_real())
+        if name == "complex":
+            return isinstance(v, complex)
         if name == "str":
             return isinstance(v, str)
         if name == "tuple":
@@ -1047,7 +1183,8 @@ def make_builtins(I):
         "callable": lambda x: isinstance(x, (FuncVal, ClassVal, Builtin, PartialVal, ExternalVal)),
         "issubclass": lambda a, b: I.repo.is_subclass(a.ci, b.ci) if isinstance(a, ClassVal) and isinstance(b, ClassVal) else False,
         "map": lambda f, *xs: [I.call(f, list(a), {}) for a in zip(*[iterate(I, x) for x in xs])],
-        "hash": lambda o: id(o),
+        "hash": lambda o: id(o), "complex": lambda *a: complex(*a),
+        "filter": lambda f, xs: [x for x in iterate(I, xs) if I.decide(I.call(f, [x], {}) if f is not None else x)],
     }
     out = {k: Builtin(k, v) for k, v in tab.items()}
     out["NotImplemented"] = NotImplemented
